@@ -18,6 +18,12 @@ columns the accounting uses: index label, `number`, `position_ver`, `position_ho
 * `remove_from_frame`     → `remove`        (by index label; an empty list removes all)
 * `empty`                 → `reset`
 
+Arrays are *values* here: `addArray a` adds the values the caller's array holds at call time.  The
+code must neither keep a reference to the caller's ndarray nor modify it (`self._array += array`
+reads it only), so adding the same ndarray object again, or the caller overwriting its own array
+afterwards, are not distinguishable from fresh arrays with those values (the harness exercises
+both: same object re-added, caller's buffer zeroed / rewritten after the call).
+
 Charge and positions are exact rationals (`Rat`); `np.floor_divide` is the exact floor of the
 quotient (the harness compares on integer-valued charges, where binary64 sums are exact, and
 checks the binning against an exact rational floor).  `flatWrite` describes what the *unrepaired*
